@@ -9,6 +9,7 @@ import WalrusVerif.Model.Frame
 import WalrusVerif.Model.AEng
 import WalrusVerif.Model.AEngR
 import WalrusVerif.Model.Header
+import WalrusVerif.Model.Durable
 import WalrusVerif.Model.Fnv
 /-!
 `wdriver`: line-protocol driver.  One request per line on stdin, one reply per line on stdout.
@@ -37,6 +38,25 @@ def handlePure (toks : List String) : Option String :=
       some (s!"metalen={len} repr=" ++ match r with
         | .inline l => s!"inline:{l}"
         | .outOfLine l rel => s!"ool:{l}:{rel}")
+    | none => some "bad-op"
+  | "dur" :: evs =>
+    -- a recorded I/O trace (C10): c:<f> create, s:<f> file sync, d directory sync, w:<f>:<id>:<osync> entry write,
+    -- a:<id> append acknowledged, r:<v> index renamed, k:<v> consuming read returned
+    let parse (s : String) : Option Durable.Ev :=
+      match s.splitOn ":" with
+      | ["c", f] => f.toNat?.map Durable.Ev.create
+      | ["s", f] => f.toNat?.map Durable.Ev.syncFile
+      | ["d"] => some Durable.Ev.syncDir
+      | ["w", f, i, o] => do some (Durable.Ev.write (← f.toNat?) (← i.toNat?) (o == "1"))
+      | ["a", i] => i.toNat?.map Durable.Ev.ack
+      | ["r", v] => v.toNat?.map Durable.Ev.renameIdx
+      | ["k", v] => v.toNat?.map Durable.Ev.ackRead
+      | _ => none
+    match evs.mapM parse with
+    | some tr =>
+      let a := match Durable.firstBadAck tr with | none => "ok" | some p => s!"bad@{p}"
+      let r := match Durable.firstBadRead tr with | none => "ok" | some p => s!"bad@{p}"
+      some s!"ack={a} read={r} checker={Durable.ackDisciplinedB tr},{Durable.readDisciplinedB tr}"
     | none => some "bad-op"
   | ["parsekey", k] =>
     match Hex.decodeStr k with
@@ -207,6 +227,8 @@ def parseEngOp (st : DState) (toks : List String) : Option Eng.Op :=
   match toks with
   | ["clock", ms] => ms.toNat?.map Eng.Op.clock
   | ["open"] => some (.open_ st.mode)
+  | ["opensync"] => some (.open_ st.mode)
+  | ["trace", _] => some .persist
   | ["close"] => some .close
   | ["restart"] => some .restart
   | ["kill"] => some .kill
